@@ -19,7 +19,7 @@ import sys
 from concurrent.futures import ThreadPoolExecutor
 
 sys.path.insert(0, os.path.dirname(os.path.abspath(__file__)))
-from seed import ALL, PY, VERIF, apply_patch, copy_repo  # noqa: E402
+from seed import ALL, PY, VERIF, apply_patch, copy_repo, differential  # noqa: E402
 
 
 def run_checks(copy, props, tier, jobs=3):
@@ -28,7 +28,7 @@ def run_checks(copy, props, tier, jobs=3):
                            env=dict(os.environ, VERIF_REPO=copy, VERIF_WORKERS=os.environ.get("VERIF_WORKERS", "5")))
         sigs = sorted({l.split("sig=")[1].split(" detail=")[0] for l in r.stdout.splitlines() if "sig=" in l})
         inc = [l[:300] for l in r.stdout.splitlines() if l.startswith("INCONCLUSIVE")][:2]
-        return p, dict(rc=r.returncode, sigs=sigs[:6], inconclusive=inc)
+        return p, dict(rc=r.returncode, sigs=sigs[:6], sigs_all=sigs, inconclusive=inc)
     with ThreadPoolExecutor(jobs) as ex:
         res = dict(ex.map(one, props))
     for p in props:
@@ -94,9 +94,15 @@ def recheck(args):
         try:
             ok, how = apply_patch(os.path.join(d, "patch.diff"), patched)
             if not ok:
-                print(pid, "PATCH DOES NOT APPLY ANY MORE", how)
-                continue
-            res = run_checks(patched, args.only or ALL, args.tier)
+                base, res = differential(os.path.join(d, "patch.diff"), args.only or ALL, args.tier, lambda c, ps, t: run_checks(c, ps, t))
+                if base is None:
+                    print(pid, "PATCH APPLIES TO NO KNOWN TREE")
+                    continue
+                meta["differential_base"] = base
+            else:
+                res = run_checks(patched, args.only or ALL, args.tier)
+            for r in res.values():
+                r.pop("sigs_all", None)
             meta.setdefault("checks", {})[args.tier] = {**meta.get("checks", {}).get(args.tier, {}), **res}
             meta["alarms"] = sorted({p for t in meta["checks"].values() for p, r in t.items() if r["rc"] != 0})
             json.dump(meta, open(os.path.join(d, "meta.json"), "w"), indent=1)
